@@ -417,6 +417,32 @@ func (in *Instance) ownershipOf(fd *ast.FuncDecl, allowed map[string]bool) []str
 				for i, l := range s.Lhs {
 					r := s.Rhs[i]
 					if !isRef(info.TypeOf(r)) {
+						// a struct or array VALUE that holds references, copied wholesale into the
+						// destination, carries the source's references along (shallow copy)
+						if rt := info.TypeOf(r); rt != nil && holdsRefs(rt) {
+							switch rt.Underlying().(type) {
+							case *types.Struct, *types.Array:
+								_, plain := ast.Unparen(l).(*ast.Ident)
+								if lo := rootOf(l); plain && lo != nil && !params[lo] {
+									continue
+								}
+								if _, lit := ast.Unparen(r).(*ast.CompositeLit); lit {
+									continue
+								}
+								if o := objOf(r); o != nil && ownedVals[o] {
+									continue
+								}
+								if _, isCall := ast.Unparen(r).(*ast.CallExpr); isCall {
+									continue // results of helpers are covered by their own contracts
+								}
+								if st, ok := ast.Unparen(r).(*ast.StarExpr); ok {
+									if o := objOf(st.X); o != nil && owned[o] {
+										continue // *p of a pointer this function allocated (and had a helper fill)
+									}
+								}
+								report(s.Pos(), "the value %s, which holds references and is not freshly built, is copied into %s: the copy would share memory", exprText(r), exprText(l))
+							}
+						}
 						continue
 					}
 					lo := rootOf(l)
